@@ -114,7 +114,10 @@ RecBytes(fmt, sec, vn) == RecBytesTab[fmt][sec][vn]
 \* What the writer adds to its cursor per record: the literal constants and thresholds of the code /
 \* of the property text.  `SubmeshStep` is a constant of the instance so that the as-coded value of
 \* skin.rs (40) can be model-checked as a named deviation (MC_M2Layout_dev.cfg).
-CONSTANT SubmeshStep
+CONSTANT SubmeshStep,
+         AnimBoneRule,     \* "table": MAOF bone count = entries of the offset table up to the first bone's data (as fixed, aa82f05)
+                           \* "size" : (section size - 16) / 4, the pre-fix rule (named deviation, must be refuted)
+         ViewBatchBytes    \* bytes per batch the WRITER of embedded views divides by: 24 as fixed (1115b56); 96 = pre-fix deviation
 CursorStepRaw(fmt, sec, vn) ==
   IF fmt = "m2" /\ sec = "animations" THEN (IF vn <= 256 THEN 32 ELSE 52) ELSE
   IF fmt = "m2" /\ sec = "bones" THEN (IF vn < 260 THEN 108 ELSE IF vn < 264 THEN 112 ELSE 88) ELSE
@@ -352,6 +355,14 @@ ConvertSame == (mgen = 2 /\ mpc \in {"written", "parsed"} /\ mver = mfirst.ver) 
 ConvertKeeps == (mgen = 2 /\ mpc = "parsed") =>
    \A sec \in Representable(mfirst.ver, mver) :
        mparsed[sec] = <<mfirst.shape[sec], IF mfirst.shape[sec] > 0 THEN mfirst.tails[sec] ELSE 0>>
+
+\* reader and writer agree on derived counts (both were genuine defects of the crate; the old rules stay as deviations):
+\*  - MAOF section = 16-byte header + 4 bytes per bone + key-frame data; the bone count is not stored
+\*  - embedded view: the reader takes 24 bytes per batch, the writer derives the batch count from the preserved bytes
+AnimReaderBones(nbones, databytes) == IF AnimBoneRule = "size" THEN (16 + 4 * nbones + databytes - 16) \div 4 ELSE nbones
+ReaderWriterAgree ==
+  /\ \A nbones \in 0..3, databytes \in {0, 28, 76} : AnimReaderBones(nbones, databytes) = nbones
+  /\ \A nbatch \in 0..5 : (nbatch * BatchBytes) \div ViewBatchBytes = nbatch
 
 \* the documented sizes agree with the field sums and with the writer's constants for every version
 SizesAgree ==
